@@ -291,7 +291,12 @@ func checkRangeSplit(p *core.Prog, r *core.Report) {
 
 // checkRangesMerged (C13.R6).
 func checkRangesMerged(p *core.Prog, r *core.Report) {
-	fn := p.Func(pkgBlock, "Ranges.Merged")
+	checkRangesMergedFn(p, r, "Merged")
+	checkRangesMergedFn(p, r, "MergedBuckets")
+}
+
+func checkRangesMergedFn(p *core.Prog, r *core.Report, name string) {
+	fn := p.Func(pkgBlock, "Ranges."+name)
 	r.Touch(core.FuncName(fn))
 	rng := p.Named(pkgBlock, "Range")
 	startF, endF := core.FieldOf(rng, "StartBlock"), core.FieldOf(rng, "ExclusiveEndBlock")
@@ -330,10 +335,10 @@ func checkRangesMerged(p *core.Prog, r *core.Report) {
 		adjs = append(adjs, a)
 	})
 	if len(adjs) == 0 {
-		core.Undecide("Ranges.Merged: no adjacency comparison (end of one range vs start of the next)")
+		core.Undecide("Ranges."+name+": no adjacency comparison (end of one range vs start of the next)")
 	}
 	news := core.FindInstrs(fn, core.IsCallTo(p.FuncObj(pkgBlock, "NewRange")))
-	r.Check(len(news) > 0, "C13.R6", "Merged/builds", "merged ranges are built with NewRange", "no NewRange call", p.Pos(fn.Pos()))
+	r.Check(len(news) > 0, "C13.R6", name+"/builds", "merged ranges are built with NewRange", "no NewRange call", p.Pos(fn.Pos()))
 	eqEdges := []core.Edge{}
 	for _, a := range adjs {
 		eqEdges = append(eqEdges, a.eq)
@@ -381,10 +386,10 @@ func checkRangesMerged(p *core.Prog, r *core.Report) {
 				}
 			}
 		}
-		r.Check(okRoles && okChain && lastOK, "C13.R6", fmt.Sprintf("Merged/bounds#%d", i+1), "a merged range runs from the start of the first range of an adjacency chain to the exclusive end of its last range, each link having been compared (end == next start)", "NewRange arguments are not (first.StartBlock, last.ExclusiveEndBlock) of a compared chain", p.Pos(c.Pos()))
+		r.Check(okRoles && okChain && lastOK, "C13.R6", fmt.Sprintf("%s/bounds#%d", name, i+1), "a merged range runs from the start of the first range of an adjacency chain to the exclusive end of its last range, each link having been compared (end == next start)", "NewRange arguments are not (first.StartBlock, last.ExclusiveEndBlock) of a compared chain", p.Pos(c.Pos()))
 		q := core.PathQuery{Fn: fn, CutEdge: func(e core.Edge) bool { return containsEdge(eqEdges, e) }}
 		_, reach := q.CanReach(nil, func(x ssa.Instruction) bool { return x == c })
-		r.Check(!reach, "C13.R6", fmt.Sprintf("Merged/only-adjacent#%d", i+1), "two ranges are merged only when the first ends exactly where the second starts", "a merged range can be built without any adjacency test having succeeded", p.Pos(c.Pos()))
+		r.Check(!reach, "C13.R6", fmt.Sprintf("%s/only-adjacent#%d", name, i+1), "two ranges are merged only when the first ends exactly where the second starts", "a merged range can be built without any adjacency test having succeeded", p.Pos(c.Pos()))
 	}
 	// the chain is extended only over an adjacency that held: the back edge assigning the chain's last element is cut by the equality edges
 	for _, a := range adjs {
@@ -397,7 +402,7 @@ func checkRangesMerged(p *core.Prog, r *core.Report) {
 				continue
 			}
 			_, only := core.OnlyViaEdge(fn, a.eq, func(x ssa.Instruction) bool { return x == pred.Instrs[0] })
-			r.Check(only, "C13.R6", "Merged/extend-only-adjacent", "the chain is extended to a further range only when that range starts exactly at the chain's end", "the chain's last element can advance without the adjacency test having succeeded", p.Pos(a.ifi.Pos()))
+			r.Check(only, "C13.R6", name+"/extend-only-adjacent", "the chain is extended to a further range only when that range starts exactly at the chain's end", "the chain's last element can advance without the adjacency test having succeeded", p.Pos(a.ifi.Pos()))
 		}
 	}
 	// unmerged elements are kept as they are: everything appended to the result is an element of the input or a NewRange result
@@ -426,5 +431,5 @@ func checkRangesMerged(p *core.Prog, r *core.Report) {
 		}
 		okElems = false
 	})
-	r.Check(okElems && n >= 2, "C13.R6", "Merged/elements", "every range of the result is either an input range kept as is or a merged range", "something else is appended to the result", p.Pos(fn.Pos()))
+	r.Check(okElems && n >= 2, "C13.R6", name+"/elements", "every range of the result is either an input range kept as is or a merged range", "something else is appended to the result", p.Pos(fn.Pos()))
 }
